@@ -588,7 +588,7 @@ func (st *State) callSync(th *Thread, f FuncV, args []Value) Value {
 	var result Value
 	done := false
 	base := len(th.stack)
-	if r, handled := st.tryIntrinsic(th, f.Fn, args, nil); handled {
+	if r, handled := st.tryIntrinsic(th, f, args, nil); handled {
 		return r
 	}
 	st.pushCall(th, f, args, nil, func(v Value) { result = v; done = true })
@@ -699,11 +699,8 @@ func (st *State) unwindStep(th *Thread, fr *Frame) stepStatus {
 		if !fr.unwinding {
 			fr.unwinding = true
 		}
-		if n := len(fr.defers); n > 0 {
-			d := fr.defers[n-1]
-			fr.defers = fr.defers[:n-1]
-			st.invokeDeferred(th, d)
-			return stJump
+		if len(fr.defers) > 0 {
+			return st.runOneDefer(th, fr)
 		}
 		// no more defers: pop
 		th.stack = th.stack[:len(th.stack)-1]
@@ -718,11 +715,8 @@ func (st *State) unwindStep(th *Thread, fr *Frame) stepStatus {
 		return stJump
 	}
 	// recovered: fr.unwinding is set and thread no longer panicking
-	if n := len(fr.defers); n > 0 {
-		d := fr.defers[n-1]
-		fr.defers = fr.defers[:n-1]
-		st.invokeDeferred(th, d)
-		return stJump
+	if len(fr.defers) > 0 {
+		return st.runOneDefer(th, fr)
 	}
 	fr.unwinding = false
 	if fr.fn.Recover != nil {
@@ -744,13 +738,35 @@ func (st *State) unwindStep(th *Thread, fr *Frame) stepStatus {
 	return stJump
 }
 
-func (st *State) invokeDeferred(th *Thread, d deferred) {
-	if r, handled := st.tryIntrinsicFuncV(th, d.fn, d.args); handled {
-		_ = r
-		return
+// invokeDeferred starts a deferred call. stNext: completed (intrinsic); stJump: frame pushed;
+// stYield/stBlock: the call is a synchronisation operation that must be retried.
+func (st *State) invokeDeferred(th *Thread, d deferred) stepStatus {
+	if d.fn.Builtin != nil || d.fn.Native != "" {
+		st.tryIntrinsicFuncV(th, d.fn, d.args)
+		return stNext
+	}
+	if d.fn.Fn == nil {
+		panic(st.violation("deferred call of nil function", nil))
+	}
+	if _, s, handled := st.intrinsic(th, nil, d.fn, d.args, nil); handled {
+		return s
 	}
 	nf := st.pushCall(th, d.fn, d.args, nil, nil)
 	nf.isDefer = true
+	return stJump
+}
+
+// runOneDefer pops and starts the last deferred call of fr.
+func (st *State) runOneDefer(th *Thread, fr *Frame) stepStatus {
+	n := len(fr.defers)
+	d := fr.defers[n-1]
+	fr.defers = fr.defers[:n-1]
+	s := st.invokeDeferred(th, d)
+	if s == stYield || s == stBlock {
+		fr.defers = append(fr.defers, d) // retried when the thread is scheduled again
+		return s
+	}
+	return stJump
 }
 
 func (st *State) panicMessage(v Value) string {
